@@ -33,6 +33,10 @@ def gen(rng, tier):
     for v in vals:
         for r in range(2, 37):
             reqs.append("C15 u.text %d %s" % (r, wu(v)))
+    # radices outside 2..=36 must be rejected (never turned into bytes for from_utf8_unchecked)
+    for v in [0, 100, B - 1, big(rng, 2), big(rng, 5)]:
+        for r in (0, 1, 37, 41, 42, 62, 64, 100, 200, 250, 255, 256, 257, 65536):
+            reqs.append("C15 u.text %d %s" % (r, wu(v)))
     for n in range(0, 401 if tier == "thorough" else 200):
         reqs.append("C15 gen_biguint %d %d" % (n, rng.randrange(1 << 62)))
     return reqs
